@@ -857,8 +857,13 @@ def errloc_case(arg: dict) -> dict:
         files["part.s"] = {"text": "\n".join(arg["part"]) + nl}
     o = assemble({"src": main, "files": files, "filename": "main.s"})
     err = o["err"] or ""
+    # tolerant extraction of (file, line[, column]) mentions: file:LINE[:COL], file(LINE[,COL]), file, line LINE[, column COL],
+    # File "file", line LINE
+    pats = [r"([A-Za-z0-9_./-]+\.s):(\d+)(?::(-?\d+))?",
+            r"([A-Za-z0-9_./-]+\.s)\((\d+)(?:\s*,\s*(-?\d+))?\)",
+            r"([A-Za-z0-9_./-]+\.s)[\"']?\s*,?\s+line\s+(\d+)(?:\s*,?\s*col(?:umn)?\s+(-?\d+))?"]
     locs = [{"file": m.group(1), "line": int(m.group(2)), "col": int(m.group(3)) if m.group(3) is not None else -999}
-            for m in re.finditer(r"([A-Za-z0-9_./-]+\.s):(\d+)(?::(-?\d+))?", err)]
+            for pat in pats for m in re.finditer(pat, err)]
     return {"ok": o["ok"], "locs": locs, "has_text": arg["text"].strip() in err, "err": err}
 
 
